@@ -17,3 +17,7 @@ proof fn lemma_enumerates<T>(a: &HashSet<T>)
         }
     }
 }
+
+// vacuity canaries (each MUST fail)
+proof fn canary_set_wf<T>(a: &HashSet<T>, b: &HashSet<T>) requires a.wf(), b.wf(), a.v@.len() > 1, b.v@.len() > a.v@.len(), ensures false {}
+proof fn canary_map_wf<K, V>(a: &HashMap<K, V>) requires a.wf(), a.m@.dom().len() > 1, ensures false {}
